@@ -60,6 +60,14 @@ func NewCollector(shard int) *Collector {
 	return &Collector{R: ShardResult{Shard: shard, Cov: map[string]int64{}}, bySig: map[string]int{}, states: map[string]int{}, nontriv: map[string]struct{}{}, outcomes: map[string]struct{}{}}
 }
 
+// ResetStates forgets which states were expanded with which budget (a new deviation bound starts);
+// the set of distinct state keys seen is kept for the evidence count.
+func (c *Collector) ResetStates() {
+	for k := range c.states {
+		c.states[k] = -1
+	}
+}
+
 // Nontrivial records a distinct non-trivial case.
 func (c *Collector) Nontrivial(key string) { c.nontriv[key] = struct{}{} }
 
@@ -202,9 +210,6 @@ func ExploreScenario(t *testing.T, s *Scenario, o HOpts, c *Collector) {
 	c.R.Pruned += ex.Stats.Pruned
 	if ex.Capped {
 		c.R.Capped = true
-	}
-	if o.Bound > c.R.MaxDev {
-		c.R.MaxDev = o.Bound
 	}
 }
 
